@@ -216,6 +216,18 @@ VERUS_UNITS = {
             ('final(commands).log() == (if n == 0 { old(commands).log() }', 'final(commands).log() == (if wide.len() == 0 { old(commands).log() }', 'ReactCache::schedule_entity_event_reaction'),
         ],
     },
+    'syscalls': {
+        'template': 'syscalls.rs.tpl',
+        'owners': [(r'(spawned_syscall|syscall_with_validation|named_syscall|named_syscall_direct|ims_default)$', ['C17']), (r'IdMappedSystems::default$', ['C17'])],
+        'negctl': [
+            # S3: the SAME system value must be stored back
+            ('final(world).spawned::<I, O>() =~= out.0.spawned::<I, O>().insert(e, SpawnedSystem { system: Some(out.1) }))', 'final(world).spawned::<I, O>() =~= out.0.spawned::<I, O>().insert(e, SpawnedSystem { system: Some(st->Some_0.system->Some_0) }))', 'spawned_syscall'),
+            # Y1: no validation on the cached path
+            ('&&& (cached is Some ==> ({ let out = sysrun_eff::<I, O>(rem_eff::<InitializedSystem<I, O, S>>(*old(world)),', '&&& (cached is Some ==> ({ let out = sysrun_eff::<I, O>(validate_eff(rem_eff::<InitializedSystem<I, O, S>>(*old(world)), validation),', 'syscall_with_validation'),
+            # N2 (direct): nothing runs and the table is unchanged for an unknown name
+            ('&& same_but::<IdMappedSystems<I, O>>(*old(world), *final(world)) && named::<I, O>(*final(world)) =~= m0))', '&& same_but::<IdMappedSystems<I, O>>(*old(world), *final(world)) && named::<I, O>(*final(world)) =~= m0.insert(sys_name, None)))', 'named_syscall_direct'),
+        ],
+    },
     'dispatch': {
         'template': 'dispatch.rs.tpl',
         'owners': [(r'schedule_entity_reaction_impl$', ['C01', 'C14']), (r'ReactCache::schedule_(insertion|mutation)_reaction$', ['C01', 'C14'])],
@@ -324,6 +336,10 @@ PROPS = {
         text='Verus proves on the verbatim text, generically in the component / resource type: React::{get,get_noreact,take} and ReactResInner::{get_noreact,take} queue nothing; get_mut queues exactly one trigger (for the owning entity); set_if_neq(new) stores, returns the old value and queues one trigger iff new != old by the type\'s PartialEq, and otherwise changes and queues nothing. Kani, loop-free over the full u32 value domain on the real accessors against the stub Commands (counting queued commands): React::{get,get_noreact} and the ReactResMut read paths queue nothing; React::get_mut / ReactResMut::get_mut queue exactly one trigger command per call; set_if_neq(new): new == old => None, value unchanged, nothing queued; new != old => Some(old), value stored, exactly one trigger. The trigger itself: schedule_mutation_reaction / schedule_insertion_reaction queue exactly one command per matching registration for THIS entity and component type (Verus, verbatim, lists of any length; Kani restates it on the compiled code for bounded shapes), and schedule_insertion_reaction queues nothing for an entity that does not carry the component (despawned before apply). Level other: value-level clauses are complete per instantiation; ReactiveMut (query-level wrappers) and ReactCommands::insert\'s command pair are not discharged (CBMC cost).',
         note=ENVNOTE + '; component/resource instantiated at a u32 newtype',
         explanation='accessor clauses complete@shape (Kani, loop-free, full value domain); dispatch of the trigger bounded (Kani)'),
+    'C17': dict(category='other', design_ref='DESIGN.md 9.5',
+        text='Function-level contracts on the three entry points, proved by Verus on the verbatim bodies, generically in the input / output / function types (no bound): spawned_syscall - a missing target (entity gone or without SpawnedSystem component) or a system that is currently running (its slot holds None) gives Err, nothing runs and nothing changes; otherwise the stored system is taken out of its slot for the duration of the call, run exactly once with the given input, its output returned, and the SAME system value as the run left it is stored back on the same entity iff it still exists. syscall_with_validation - the system cached under the key (I, O, S) is taken out, run exactly once, its output returned and the same value stored back under the same key, with no validation and no second initialisation; without a cached system, validation runs first, ONE system is built, initialised once, run and stored. named_syscall / named_syscall_direct - the system stored under the name is taken out of its slot, run exactly once, its pending commands applied before returning, and the same value stored back under the name; an unknown name makes named_syscall build-initialise-run-store one system and named_syscall_direct return Err without running anything or touching the table; other names are untouched. That a run applies the commands it queued before returning is discharged on the real CallbackSystem::run_with_cleanup / run_initialized_system by Kani (K.callbacks.*: cleanup, then apply_deferred, on every run); spawned_syscall on missing / running targets is restated by Kani on the compiled code. Level other: the system bodies, Bevy\'s System::run (= run + apply_deferred) and the resource / component stores are uninterpreted effects with assumed contracts; persistence over SEQUENCES of calls follows from the per-call contracts only by the (unproved here) induction over the call history; the thin wrappers (syscall, WorldSyscallExt, the Commands extensions, prep_fncall) and register_named_system* are not under contract.',
+        note=ENVNOTE + '; fn-pointer parameter `validation` replaced by an opaque stand-in type (extraction rule 19); closures normalized by rules 20/21',
+        explanation='take-out / run-once / store-back-the-same-value proved per call for all three families (Verus, generic); command application before return by Kani on the callback runners; call histories and wrappers not covered'),
     'C18': dict(category='other', design_ref='DESIGN.md 5/C18',
         text='Function-level robustness contracts: Verus (verbatim, unbounded): revoke_reactor skips - does not abort on - token elements whose entity is gone and still processes all later elements; try_cleanup_data_entity is a no-op on a dead entity; cleanup_on_abort runs setup+cleanup whether or not the target exists; syscommand_runner takes the abort path - one cleanup_on_abort, no system run - exactly when the target entity is gone, has no storage, or its callback is out at the root; a postponed command is handed back to the runner whatever happened to its target in between (replay closure verbatim, lifted by extraction rule 14), so a target that died meanwhile reaches that abort path instead of being dropped silently. the register_despawn_reactor system does nothing at all for a target that died before the command was applied (Verus, unit despawn_reg). Kani (every reachable panic is a failed obligation): try_cleanup_data_entity on dead / counter-less entities, schedule_entity_event_reaction for a target without reactor list, tracker start without entry, revoke_* with absent key/id. Not covered: whole-tree histories (C02).',
         note=ENVNOTE,
@@ -331,7 +347,6 @@ PROPS = {
 }
 PENDING = {
     'C08': 'the obligations within reach (track_removals, ReactCache::register_despawn_reactor, DespawnTrigger / EntityRemovalTrigger::register) do not decide the statement: detection itself is Bevy (RemovedComponents, component drop on despawn), schedule_removal_reactions and the register_despawn_reactor system use closures taking &mut World (outside Verus\' subset), and Kani harnesses for schedule_despawn_reactions / register_despawn_reactor exceed the cost rule (ReactCache inside a World: > 600-900 s); DESIGN.md 9.5',
-    'C17': 'syscall / named_syscall_direct use function-pointer validation and closures taking &mut (outside Verus\' subset); their Kani harnesses (World resource remove/insert + boxed systems) exceed the cost rule (> 1200 s each, alone on 16 cores); only spawned_syscall on missing targets and CallbackSystem::run_with_cleanup are discharged, which does not decide the statement; DESIGN.md 9.5',
 }
 for k, v in NA.items():
     assert k not in PROPS
